@@ -96,8 +96,82 @@ def enum_flag(ctx, F, f, st, field, key):
 ERRC = re.compile(r"syntax::state::ParserState::<'a>::error$|syntax::grammar_util::err$")
 
 
+POS_SRC_OK = re.compile(r"^(const|param|Lexer::span|Cursor(Chars|Bytes)::pos|usize::(saturating_sub|saturating_add|min|max)|"
+                        r"(str|String|\[T\]|slice|Vec)::len|char::len_utf8|slice::last_mut|cmp::(min|max)|unknown)$")
+
+
+def r3_lexer_positions(ctx, F):
+    """byte offsets in the lexer (what is handed to logos `bump` and to error/token spans) are computed only from other
+    byte offsets (cursor positions, token spans), byte lengths (`len`, `len_utf8`) and constants. A character count or a
+    truth value (`usize::from(x.is_some())`) is not a byte length: with a multi-byte character next to the token the
+    offset falls inside a character - logos asserts (panic) or the error span is off a character boundary."""
+    from kern import origins
+    pc = re.compile(r"(Try>::branch$|Option::<.*>::(unwrap\w*|expect)$)")
+    n = 0
+    for f in F.fns.values():
+        if f.crate != "starlark_syntax" or "src/lexer.rs" not in f.span:
+            continue
+        for st in f.stmts:
+            m = re.match(r"binop (Add|Sub)WithOverflow$", st.kind)
+            if not m or st.bb in f.cleanup or (len(st.ops) > 1 and st.ops[1].strip() != "usize"):
+                continue
+            n += 1
+            src = set()
+            for op in st.ops[0].split(" , "):
+                for o in origins(f, op, pass_calls=pc):
+                    src.add(short_fn(o[1].name) if o[0] == "call" else
+                            (o[0] if o[0] != "agg" else "agg:" + o[1].kind.split("::")[-1]))
+            bad = sorted(x for x in src if not POS_SRC_OK.match(x))
+            ctx.check(not bad, "C05.R3", "lexer-offset-sources:%s:%s" % (short_fn(top_fn(F, f).qpath), "+".join(bad) or "ok"),
+                      "offset arithmetic over positions, byte lengths and constants only",
+                      "`%s` computes a byte offset from %s: that is not a byte position or byte length, so next to a "
+                      "multi-byte character the offset lands inside a character (logos `bump` asserts, or the error "
+                      "span is not on a character boundary)" % (short_fn(top_fn(F, f).qpath), bad), fn=f, line=st.line)
+    ctx.floor("C05.R3", "offset additions/subtractions in the lexer", n, 60, inventory=True)
+
+
+CUR = r"cursors::Cursor(Chars|Bytes)(::<'a>)?::"
+
+
+def r4_no_decrement_after_helper(ctx, F):
+    """`cursor.pos() - k` names the start of the k bytes just consumed only while the lexer knows what it consumed (an
+    ASCII character it matched itself). After the cursor was handed to a helper that consumes an unknown number of
+    characters (escape parsing), `pos() - k` can land inside a multi-byte character: no such subtraction is reachable
+    from a helper call without an intervening `next()` of the lexer's own."""
+    from kern import locals_in, origins
+    n = 0
+    for f in F.fns.values():
+        if f.crate != "starlark_syntax" or "src/lexer.rs" not in f.span:
+            continue
+        helpers = [c for c in f.calls if c.bb not in f.cleanup and not c.indirect and not re.search(CUR, c.name)
+                   and any(re.search(r"&mut cursors::Cursor(Chars|Bytes)", f.locals.get(l, ""))
+                           for a in c.args for l in locals_in(a))]
+        nexts = {c.bb for c in f.calls if re.search(CUR + r"(next|next_char)$", c.name)}
+        for st in f.stmts:
+            if st.kind != "binop SubWithOverflow" or st.bb in f.cleanup:
+                continue
+            ops = st.ops[0].split(" , ")
+            if len(ops) < 2 or not ops[1].strip().startswith("const"):
+                continue
+            reads = [o[1] for o in origins(f, ops[0]) if o[0] == "call" and re.search(CUR + r"pos$", o[1].name)]
+            if not reads:
+                continue
+            n += 1
+            # what matters is where the position was READ, not where the subtraction happens
+            bad = [h for h in helpers if any(p.bb in f.reach(list(f.succs(h.bb)), cut_blocks=nexts) for p in reads)]
+            ctx.check(not bad, "C05.R4", "pos-decrement-after-helper:%s:%s" % (
+                short_fn(top_fn(F, f).qpath), "+".join(sorted({h.name.split("::")[-1] for h in bad})) or "none"),
+                      "the decrement follows a character the lexer consumed itself",
+                      "`%s` computes `pos() - const` after `%s` consumed an unknown number of characters from the "
+                      "cursor: when the last of them is multi-byte the offset (an error span start) falls inside it"
+                      % (short_fn(top_fn(F, f).qpath), bad[0].name.split("::")[-1] if bad else ""), fn=f, line=st.line)
+    ctx.floor("C05.R4", "`pos() - const` computations in the lexer", n, 3)
+
+
 def run(ctx):
     F = ctx.facts("core")
+    r3_lexer_positions(ctx, F)
+    r4_no_decrement_after_helper(ctx, F)
     readers = []
     for f in F.fns.values():
         if f.crate != "starlark_syntax" or re.search(r"<dialect::Dialect as ", f.qpath):
